@@ -6,7 +6,7 @@ OUT=/tmp/seed-$P-$N-out; W=/tmp/coord/seedw-$P-$N
 [ -f $OUT/patch.diff ] || { echo "no patch"; exit 2; }
 git -C /repo worktree add -q --detach $W $(git -C /repo rev-parse HEAD) || exit 2
 cd $W
-for f in $OUT/*_test.go; do cp $f $W/$PKG/zz_seed_$(basename $f); done
+mkdir -p $W/$PKG; for f in $OUT/*_test.go; do cp $f $W/$PKG/zz_seed_$(basename $f); done
 echo "== demo WITHOUT patch"; GOPROXY=off timeout 1800 go test -count=1 -run "$RUN" ./$PKG 2>&1 | tail -3
 git apply $OUT/patch.diff || { echo "PATCH DOES NOT APPLY to current HEAD"; }
 echo "== demo WITH patch"; GOPROXY=off timeout 1800 go test -count=1 -run "$RUN" ./$PKG 2>&1 | tail -3
